@@ -3,6 +3,8 @@
 package cl
 
 import (
+	"strings"
+
 	"github.com/ohler55/slip"
 )
 
@@ -42,6 +44,21 @@ type MakeHashTable struct {
 // Call the function with the arguments provided.
 func (f *MakeHashTable) Call(s *slip.Scope, args slip.List, depth int) (result slip.Object) {
 	slip.CheckArgCount(s, depth, f, args, 0, 8)
+	for pos := 0; pos < len(args); pos += 2 {
+		sym, ok := args[pos].(slip.Symbol)
+		if !ok {
+			slip.TypePanic(s, depth, "keyword", args[pos], "keyword")
+		}
+		switch strings.ToLower(string(sym)) {
+		case ":test", ":size", ":rehash-size", ":rehash-threshold":
+			// all ignored
+		default:
+			slip.TypePanic(s, depth, "keyword", sym, ":test", ":size", ":rehash-size", ":rehash-threshold")
+		}
+		if len(args)-1 <= pos {
+			slip.ErrorPanic(s, depth, "%s missing an argument", sym)
+		}
+	}
 
 	return slip.HashTable{}
 }
